@@ -1,9 +1,10 @@
 """C08 - codegen is a pure function of its inputs across calls, threads and processes.
 Monitors: (1) call histories in one driver process and barrier-released multi-thread stampedes,
 each call compared with the same call made alone in a fresh process; (2) the cache event log
-(hook H2, recorded under the cache's own lock) checked for exactly-once fill per key and no hit
-after a failed fill; (3) a reduced stampede under Miri (data races / UB, a different schedule per
-seed)."""
+(hook H2, recorded under the cache's own lock): fills / hits / failed fills and the distinct lock
+orders seen, as observations in the evidence (the fill-once pattern is an implementation choice, not
+part of the property: not judged); (3) a reduced stampede under Miri (data races / UB, a different
+schedule per seed); (4) whole stampedes in a ThreadSanitizer build of the driver."""
 import json
 import os
 import re
@@ -25,12 +26,12 @@ RULE = ("a directory tree with the same schema under two paths, different schema
         "Histories: random sequences of 20-200 calls in one process with failing calls interleaved; stampedes of 2..16 threads "
         "one history over 80 (thorough 400) distinct schema and query files followed by repeats of the early ones; stampedes of 2..16 threads "
         "released by a barrier with 0-300 us sleeps between calls (never inside the cache lock); every call's result must equal "
-        "the reference (exact tokens for Ok, exact message for Err, panic class otherwise). Cache event log: per (cache, key) at "
-        "most one fill, only hits after it, never a hit without a fill. Non-trivial = history with a failing call or >= 2 threads; "
+        "the reference (exact tokens for Ok, exact message for Err, panic class otherwise). Cache event log (recorded under the cache's own lock): fills, hits, failed fills and the "
+        "distinct lock orders are reported as observations (the fill-once pattern is not part of the property and not judged). 4 (thorough 48) further stampedes run in a ThreadSanitizer build of the driver (std included): a race report is refuting, results compared as everywhere. Non-trivial = history with a failing call or >= 2 threads; "
         "distinct by the sequence of (thread, call id)")
 
 # minima that hold by construction (24 histories x >= 20 calls, every other one starting with a failing call; 12 stampedes x >= 2 threads x >= 3 calls)
-FLOOR = {"history-calls": 400, "stampede-calls": 60, "failing-calls-in-histories": 10, "calls-after-a-failure": 100, "cache-events": 300, "distinct-lock-orders": 3, "miri-runs": 1, "many-files-calls": 100}
+FLOOR = {"history-calls": 400, "stampede-calls": 60, "failing-calls-in-histories": 10, "calls-after-a-failure": 100, "cache-events": 300, "distinct-lock-orders": 3, "miri-runs": 1, "many-files-calls": 100, "tsan-runs": 2}
 OPTS = [{"mode": "cli"}, {"mode": "cli", "normalization": "rust", "response_derives": "Debug"}, {"mode": "cli", "other_variant": True, "skip_none": True}]
 
 
@@ -220,26 +221,31 @@ def main(run):
         return True
 
     def check_events(events, case):
-        """exactly-once fill per key, hit only after a fill, a failed fill leaves the key absent"""
+        """the cache event log (hook H2) as an OBSERVATION: which fills, hits and failed fills happened, in lock order. The
+        pattern "one fill per key, then only hits" is what the pinned implementation does, but the property does not ask for
+        it (a cache that evicts, refills or fills outside the lock is as pure as this one as long as every call's result is
+        right - and that is judged by `compare` on every call). Departures from the pattern are therefore counted and
+        sampled in the evidence, never reported as violations."""
         state = {}
         for cache, key, kind, tid in events:
             run.count("cache-events")
             run.count("cache-" + kind)
             k = (cache, key)
             st = state.get(k, "absent")
-            if kind == "hit":
-                if st != "filled":
-                    run.violation(case, "cache log: hit on %s %s in state %s" % (cache, os.path.basename(key), st))
-                    return
+            odd = None
+            if kind == "hit" and st != "filled":
+                odd = "hit on %s %s in state %s" % (cache, os.path.basename(key), st)
             elif kind == "miss-filled":
                 if st == "filled":
-                    run.violation(case, "cache log: second fill of %s %s" % (cache, os.path.basename(key)))
-                    return
+                    odd = "second fill of %s %s" % (cache, os.path.basename(key))
                 state[k] = "filled"
-            elif kind == "miss-failed":
-                if st == "filled":
-                    run.violation(case, "cache log: failed fill of the already filled key %s %s" % (cache, os.path.basename(key)))
-                    return
+            elif kind == "miss-failed" and st == "filled":
+                odd = "failed fill of the already filled key %s %s" % (cache, os.path.basename(key))
+            if odd:
+                run.count("cache-log-departures-from-fill-once")
+                notes = run.extra.setdefault("cache_log_departures", [])
+                if len(notes) < 5:
+                    notes.append({"case": case["id"], "what": odd})
         run.held()
 
     exe = build.bin_path("gendrv")
@@ -395,8 +401,13 @@ def main(run):
     else:
         miri = run_miri(run, root, miri_seeds)
     run.extra["miri"] = miri
+    # ---- (4) ThreadSanitizer: whole stampedes (16 threads, the real call pool) in an instrumented driver
+    if os.environ.get("VERIF_SKIP_MIRI"):
+        run.extra["tsan"] = {"status": "skipped"}
+    else:
+        run.extra["tsan"] = run_tsan(run, root, cwd, calls, by_id, compare, check_events)
     shutil.rmtree(root, ignore_errors=True)
-    return run.finish(floor=FLOOR if run.tier == "quick" else {k: (v * 20 if k not in ("distinct-lock-orders", "miri-runs") else v * 4) for k, v in FLOOR.items()})
+    return run.finish(floor=FLOOR if run.tier == "quick" else {k: (v * 20 if k not in ("distinct-lock-orders", "miri-runs", "tsan-runs") else v * 4) for k, v in FLOOR.items()})
 
 
 MIRI_SCHEMA_A = "type Query { a: Int b: B }\ntype B { c: String }\n"
@@ -482,6 +493,92 @@ def run_miri(run, root, nseeds):
     res["distinct_lock_orders"] = len(orders)
     run.count("miri-distinct-lock-orders", len(orders))
     return res
+
+
+def build_tsan():
+    """gendrv (with /repo's crates and std itself) instrumented by ThreadSanitizer; None when this toolchain cannot do it"""
+    tdir = os.path.join(build.BUILD, "target-tsan")
+    env = build.cargo_env({"CARGO_TARGET_DIR": tdir})
+    env["RUSTFLAGS"] = "-Zsanitizer=thread " + build.RUSTFLAGS
+    p = subprocess.run(["cargo", "+nightly", "build", "--offline", "-Zbuild-std", "--target", "x86_64-unknown-linux-gnu", "-p", "gendrv"],
+                       cwd=build.HARNESS, env=env, capture_output=True, text=True)
+    exe = os.path.join(tdir, "x86_64-unknown-linux-gnu", "debug", "gendrv")
+    if p.returncode != 0 or not os.path.exists(exe):
+        return None, p.stderr[-600:]
+    return exe, ""
+
+
+def run_tsan(run, root, cwd, calls, by_id, compare, check_events):
+    """second opinion on the one lock there is (and on anything a change adds next to it): the stampede workload - failing
+    calls included, 8-16 threads, the deep documents in lockstep - in a driver where every memory access of the generator, its
+    dependencies and std is instrumented. A race report is a refuting event; the calls' results are compared with the
+    fresh-process table like everywhere else (the instrumented driver is 5-10x slower, which shifts every interleaving)."""
+    exe, err = build_tsan()
+    if exe is None:
+        run.inconclusive_case("tsan", "the ThreadSanitizer build of the driver failed: %s" % err[-300:])
+        return {"status": "build-failed"}
+    d = os.path.join(root, "tsan")
+    os.makedirs(d)
+    n = run.size(4, 48)
+    deep = [c for c in calls if c.get("deep")]
+
+    def one(si):
+        r = run.sub_rng("tsan%d" % si)
+        if si % 2 == 0:
+            threads = [[r.choice(deep) for _ in range(5)] for _ in range(16)]
+            job = {"threads": threads, "sleeps_us": [[0] * 5 for _ in range(16)], "lockstep": True}
+        else:
+            nt = r.choice([8, 16])
+            hot = r.sample(calls, 5)
+            threads = [[r.choice(hot if r.random() < 0.7 else calls) for _ in range(r.randint(3, 6))] for _ in range(nt)]
+            job = {"threads": threads, "sleeps_us": [[r.choice([0, 0, 50, 200]) for _ in t] for t in threads]}
+        logp = os.path.join(d, "report%d" % si)
+        env = dict(os.environ, TSAN_OPTIONS="halt_on_error=0:exitcode=66:second_deadlock_stack=1:log_path=%s" % logp, RUST_BACKTRACE="0")
+        res = watched_run([exe, "stampede"], json.dumps(job).encode(), wall_s=900, cwd=cwd, env=env)
+        import glob
+        text = "".join(open(f, errors="replace").read() for f in sorted(glob.glob(logp + ".*")))
+        return si, threads, res, text
+    with ThreadPoolExecutor(4) as ex:
+        outs = list(ex.map(one, range(n)))
+    reports = {}
+    completed = 0
+    for si, threads, res, text in outs:
+        ids = [[c["id"] for c in t] for t in threads]
+        case = {"id": "tsan-stampede%d" % si, "corpus": "clean", "kind": "tsan-stampede", "threads": ids, "calls": {c["id"]: by_id[c["id"]] for t in threads for c in t}}
+        blocks = [b for b in text.split("==================") if "WARNING: ThreadSanitizer" in b]
+        for b in blocks:
+            head = b.strip().splitlines()[0]
+            frames = [l.strip() for l in b.splitlines() if re.match(r"\s+#\d+ ", l)]
+            own = next((f for f in frames if "graphql" in f), frames[0] if frames else "")
+            key = (head.split("(pid")[0].strip(), re.sub(r"0x[0-9a-f]+|:\d+", "", own))
+            if key not in reports:
+                reports[key] = b
+                run.violation(case, "ThreadSanitizer: %s at %s" % (key[0][:80], key[1][:160]), {"report": b[:3000]})
+        try:
+            out = json.loads(res["stdout"].decode("utf-8", "replace"))
+        except ValueError:
+            out = None
+        if out is None:
+            if res["timed_out"]:
+                run.inconclusive_case(case["id"], "wall-clock watchdog fired in an instrumented stampede")
+            elif res["deadlock"]:
+                run.violation(case, "instrumented stampede deadlocked (%d threads)" % res["deadlock_threads"])
+            elif not blocks:
+                run.inconclusive_case(case["id"], "instrumented driver died without a report (exit %s signal %s): %s" % (res["exit"], res["signal"], res["stderr_bytes"][-200:]))
+            continue
+        completed += 1
+        okc = True
+        for ti, (t, rs) in enumerate(zip(threads, out["results"])):
+            for ci, (c, o) in enumerate(zip(t, rs)):
+                run.count("tsan-stampede-calls")
+                if compare(c["id"], o, case, "(ThreadSanitizer build, thread %d of %d, call %d)" % (ti, len(threads), ci)) is False:
+                    okc = False
+                    break
+            if not okc:
+                break
+        check_events(out["events"], case)
+    run.count("tsan-runs", completed)
+    return {"status": "ran", "stampedes": n, "completed": completed, "race_reports": len(reports), "first_report": (list(reports.values()) or [""])[0][:1500]}
 
 
 def replay(run, rec):
